@@ -101,7 +101,12 @@ def build(run):
 
     run.unclaim("err.__traceback__.tb_next introspection is abstracted to one boolean: 'the exception was raised at the call itself' "
                 "(no callee frame) vs inside the handler")
-    run.unclaim('run_forever / run / shutdown: what each API re-raises (coroutine bodies with clean-up awaits) - see C08 for the status')
+    from specs import lifecycle
+    lifecycle.verify_run_forever(run)       # raises Circuit.error = the first recorded error (history variable first_err)
+    lifecycle.verify_api(run)
+    lifecycle.verify_shutdown(run)          # re-raises it unless it is a cancellation
+    lifecycle.lifecycle_scans(run)
+    run.unclaim('edzed.run(): which error it raises when supporting tasks fail (module-level coroutine with task lists)')
     run.assume('A-cancel: user code does not cancel edzed tasks or write private fields')
     run.trust('asyncio.Task.cancel/done; interface contracts of handlers and monitored coroutines')
 
